@@ -37,7 +37,7 @@ def mat(v, form):
 
 
 def vec_form(rng, allow_list=True, maxval=0, n=2):
-    forms = ['array:' + d for d in VEC_DTYPES if not (d == 'i2' and maxval > 32767)
+    forms = ['array:' + d for d in VEC_DTYPES if not (d == 'i2' and maxval > 32767) and not (d == 'u2' and maxval > 65535)
              and not (d == 'u8' and n == 1)]      # single-element uint64: int32 + uint64 -> float64, outside the domain (report, g)
     if allow_list:
         forms += ['list', 'list']
@@ -45,7 +45,8 @@ def vec_form(rng, allow_list=True, maxval=0, n=2):
 
 
 def scalar_form(rng, maxval=0):
-    return rng.choice([f for f in SCALAR_FORMS if not (f == 'np:i2' and maxval > 32767)])
+    return rng.choice([f for f in SCALAR_FORMS if not (f == 'np:i2' and maxval > 32767)
+                       and not (f == 'np:u2' and maxval > 65535)])
 
 
 # ----------------------------------------------------------------------------------------------
@@ -109,16 +110,19 @@ def check_append(rec, out, where):
 # generators: trees and requests
 # ----------------------------------------------------------------------------------------------
 def gen_tree(rng, kind='boss', layout='tree', allfib=False, decoy=False, photoplate='auto', small=False,
-             shared_solution=None):
+             shared_solution=None, confusable=None, five_digit=False):
     sdss = kind == 'sdss'
     lo, hi = (51600, 55024) if sdss else (55025, 59990)
     nplates = rng.randint(2, 3 if (allfib and sdss) else 5)
     p0 = rng.choice([rng.randint(1, 9), rng.randint(10, 99), rng.randint(100, 998), rng.randint(1000, 9990)])
     plates = [p0]
     while len(plates) < nplates:
-        c = rng.choice([plates[-1] + 1, plates[-1] + 1, rng.randint(1, 9999), p0 + rng.randint(1, 5)])
-        if c not in plates and 1 <= c <= 9999:
+        c = rng.choice([plates[-1] + 1, plates[-1] + 1, rng.randint(1, 9999), p0 + rng.randint(1, 5),
+                        rng.choice([9999, 10000, rng.randint(10000, 16383)]) if rng.random() < 0.5 else rng.randint(1, 9999)])
+        if c not in plates and 1 <= c <= 16383:
             plates.append(c)
+    if five_digit and not any(q > 9999 for q in plates):
+        plates[0] = rng.choice([10000, rng.randint(10001, 16383)])
     rng.shuffle(plates)
     shared = rng.randint(lo, hi - 4)
     files = []
@@ -143,6 +147,25 @@ def gen_tree(rng, kind='boss', layout='tree', allfib=False, decoy=False, photopl
             c0 = round(rng.uniform(3.5, 3.6), 4)
             c1 = rng.choice([1e-4, 1e-4, 2e-4, 1.5e-4])
             files.append([p, m, nfib, npix, c0, c1])
+    # plate numbers that are textual prefixes of / contained in each other: P (4 digits) and 10P+d (5 digits, LATER MJD
+    # than any of P), P < 1000 and 10P+d ('0266' / '2660'); in the flat path= layout they share one directory.
+    if confusable is None:
+        confusable = rng.random() < 0.15
+    if confusable and not allfib and len(files) <= 11:
+        top = max(f[1] for f in files)
+        for base in ([rng.randint(1000, 9999)] + ([rng.randint(100, 999)] if rng.random() < 0.5 and len(files) <= 6 else [])):
+            if base in plates:
+                continue
+            m0 = rng.randint(lo, max(lo, min(top, hi - 8)))
+            for m in sorted({m0, m0 + rng.choice([0, 1, 3])}):
+                files.append([base, m, rng.randint(4, 12 if small else 40), rng.randint(4, 60),
+                              round(rng.uniform(3.5, 3.6), 4), rng.choice([1e-4, 2e-4])])
+            longer = 10 * base + rng.randint(0, 9)
+            files.append([longer, m0 + rng.randint(4, 7), rng.randint(4, 12 if small else 40), rng.randint(4, 60),
+                          round(rng.uniform(3.5, 3.6), 4), rng.choice([1e-4, 2e-4])])
+            if rng.random() < 0.4:
+                files.append([longer, max(lo, m0 - rng.randint(1, 5)), rng.randint(4, 12 if small else 40), rng.randint(4, 60),
+                              round(rng.uniform(3.5, 3.6), 4), 1e-4])
     rng.shuffle(files)
     # several plate-MJDs with the SAME COEFF0/COEFF1 but different pixel counts (file order is random, so the shorter
     # one comes first or last in plate-MJD order): anything keyed on the wavelength solution must still respect NAXIS1
@@ -165,7 +188,9 @@ def gen_tree(rng, kind='boss', layout='tree', allfib=False, decoy=False, photopl
     tree = {'kind': kind, 'run2d': run2d, 'run1d': run1d, 'layout': layout, 'zbest': rng.random() < 0.85,
             'photoplate': photoplate, 'platelist': bool(allfib and not sdss), 'plates': files, 'decoy': None,
             # per-file table heterogeneity (string widths, int16/32/64, float32/64, column order): seed or None
-            'tabvar': rng.getrandbits(16) if rng.random() < 0.75 else None}
+            'tabvar': rng.getrandbits(16) if rng.random() < 0.75 else None,
+            # WCS / WAT cards next to COEFF0/COEFF1 that do not repeat them, other HDUs repeating COEFF0 with other values
+            'hdrvar': rng.getrandbits(16) if rng.random() < 0.75 else None}
     if decoy:
         # same plate-MJD files (so that every lookup succeeds) with other shapes and another id range
         # (a 'twin': requests may also be aimed at it, alternating with the main tree in one process); half of its
@@ -174,6 +199,23 @@ def gen_tree(rng, kind='boss', layout='tree', allfib=False, decoy=False, photopl
                           rng.choice([x for x in range(4, 65) if x != f[3]]) if not (allfib and sdss) else 8,
                           rng.choice([f[4], round(f[4] + 0.01, 4)]), f[5]] for f in files]
     return tree
+
+
+def prefix_requests(rng, tree, kw, shadow='good'):
+    """requests aimed at plates whose number is the textual prefix of another plate's: MJD omitted for the short one,
+    explicit MJD for a request mixing both"""
+    files = tree['plates']
+    reqs = []
+    for p in sorted({f[0] for f in files}):
+        sib = [f for f in files if f[0] != p and ('%04d' % f[0]).startswith('%04d' % p)]
+        if not sib:
+            continue
+        mine = [f for f in files if f[0] == p]
+        reqs.append(gen_request(rng, dict(tree, plates=mine), rng.choice(['sNv', 'sNs', 'l1Nv']), kw=kw, shadow=shadow))
+        reqs.append(gen_request(rng, dict(tree, plates=mine + sib), rng.choice(['vvv', 'vNv']), kw=kw, shadow=shadow, per_file=2))
+        reqs.append(gen_request(rng, dict(tree, plates=sib), rng.choice(['sNv', 'sNs']), kw=kw, shadow=shadow))
+        reqs.append(gen_request(rng, tree, 'vNv', kw=kw, shadow=shadow))
+    return reqs[:4]
 
 
 def _latest(files):
@@ -195,6 +237,7 @@ def gen_request(rng, tree, style, kw=(), shadow='good', per_file=1, min_n=1):
     pool = latest_files if nomjd else files
     req = {'style': style, 'kw': list(kw), 'shadow': shadow}
     maxm = max(f[1] for f in files)
+    maxp = max(f[0] for f in files)
     if style in ('vvv', 'vNv'):
         k = min(len(pool), rng.choice([1, 2, 3, 3, 4, 5, 5]))
         chosen = rng.sample(pool, k)
@@ -222,7 +265,7 @@ def gen_request(rng, tree, style, kw=(), shadow='good', per_file=1, min_n=1):
         req['mjd'] = None if nomjd else [r[0][1] for r in rows]
         req['fiber'] = [r[1] for r in rows]
         n = len(rows)
-        req['pform'] = vec_form(rng, True, 0, n)
+        req['pform'] = vec_form(rng, True, maxp, n)
         req['mform'] = vec_form(rng, True, maxm, n)
         req['fform'] = vec_form(rng, True, 0, n)
     elif style in ('svv', 'sNv', 'l1v', 'l1Nv'):
@@ -235,7 +278,7 @@ def gen_request(rng, tree, style, kw=(), shadow='good', per_file=1, min_n=1):
         req['plate'] = [f[0]] if one else f[0]
         req['mjd'] = None if nomjd else ([f[1]] if (one and rng.random() < 0.5) else f[1])
         req['fiber'] = fib
-        req['pform'] = vec_form(rng, True, 0, 1) if one else scalar_form(rng)
+        req['pform'] = vec_form(rng, True, maxp, 1) if one else scalar_form(rng, maxp)
         req['mform'] = vec_form(rng, True, maxm, 1) if isinstance(req['mjd'], list) else scalar_form(rng, maxm)
         req['fform'] = vec_form(rng, True, 0, n)
     elif style in ('vvs', 'vNs'):
@@ -252,7 +295,7 @@ def gen_request(rng, tree, style, kw=(), shadow='good', per_file=1, min_n=1):
         req['plate'] = [r[0] for r in rows]
         req['mjd'] = None if nomjd else [r[1] for r in rows]
         req['fiber'] = [fib] if one else fib
-        req['pform'] = vec_form(rng, True, 0, n)
+        req['pform'] = vec_form(rng, True, maxp, n)
         req['mform'] = vec_form(rng, True, maxm, n)
         req['fform'] = vec_form(rng, True, 0, 1) if one else scalar_form(rng)
     elif style in ('sss', 'sNs', 'l1l1', 'l1Nl1'):
@@ -262,7 +305,7 @@ def gen_request(rng, tree, style, kw=(), shadow='good', per_file=1, min_n=1):
         req['plate'] = [f[0]] if one else f[0]
         req['mjd'] = None if nomjd else ([f[1]] if (one and rng.random() < 0.5) else f[1])
         req['fiber'] = [fib] if one else fib
-        req['pform'] = vec_form(rng, True, 0, 1) if one else scalar_form(rng)
+        req['pform'] = vec_form(rng, True, maxp, 1) if one else scalar_form(rng, maxp)
         req['mform'] = vec_form(rng, True, maxm, 1) if isinstance(req['mjd'], list) else scalar_form(rng, maxm)
         req['fform'] = vec_form(rng, True, 0, 1) if one else scalar_form(rng)
     elif style in ('all_s', 'all_sN'):
@@ -274,7 +317,7 @@ def gen_request(rng, tree, style, kw=(), shadow='good', per_file=1, min_n=1):
         req['plate'] = [f[0]] if one else f[0]
         req['mjd'] = None if nomjd else f[1]
         req['fiber'] = None
-        req['pform'] = vec_form(rng, False, 0, 1) if one else scalar_form(rng)   # documented: int or ndarray
+        req['pform'] = vec_form(rng, False, maxp, 1) if one else scalar_form(rng, maxp)   # documented: int or ndarray
         req['mform'] = scalar_form(rng, maxm)
         req['fform'] = 'int'
     elif style == 'all_vN':
@@ -286,7 +329,7 @@ def gen_request(rng, tree, style, kw=(), shadow='good', per_file=1, min_n=1):
         req['plate'] = [f[0] for f in chosen]
         req['mjd'] = None
         req['fiber'] = None
-        req['pform'] = vec_form(rng, False, 0, k)
+        req['pform'] = vec_form(rng, False, maxp, k)
         req['mform'] = 'int'
         req['fform'] = 'int'
     else:
@@ -341,6 +384,11 @@ class C16(Check):
             'still satisfy the oracle; two trees with the same plate numbers and MJDs (other lengths, ids, partly the same '
             'COEFF0/COEFF1) are read alternately in one process; trees in which several plate-MJDs share COEFF0/COEFF1 but differ '
             'in pixel count, shorter first and shorter last, with >= 2 rows per file.  '
+            'Names and headers: plates whose number is the textual prefix of another plate\'s (P and 10P+d across the 9999/10000 '
+            'boundary, the longer one with the later MJD; 5-digit plates are requested like any other) in per-plate directories and in '
+            'one flat path= directory, asked with MJD omitted; in 3 of 4 trees the spPlate primary headers also carry CRVAL1/CD1_1/'
+            'CRPIX1/CDELT1/CTYPE1/DC-FLAG/WAT cards in SDSS style, referred to CRPIX1 != 1, or inconsistent with COEFF0/COEFF1, and '
+            'the other HDUs repeat COEFF0/COEFF1 with other values - the expectation is always COEFF0 + COEFF1*pixel of HDU 0.  '
             'History: the tree itself changes between the calls of one case (a later MJD of a plate already read is delivered, '
             'the latest MJD withdrawn, an earlier MJD or a new plate directory added, a file replaced under the same name with '
             'other ids in the same and in another shape, a second reduction below the same topdir selected by $RUN2D/run2d=); after '
@@ -356,7 +404,7 @@ class C16(Check):
     ASSUMPTIONS = [
         'oracle rebuilds the expected arrays from the request and the id code of vlib/gen/survey_tree.py; it never indexes the files',
         'SPECTRO_MATCH and PHOTO_RESOLVE are always set (readspec consults them whenever no photoPlate lies next to the spPlate)',
-        'optional files (spZbest, photoPlate) exist for all plate-MJDs of a tree or for none; plate numbers 1-9999, MJD < 65536',
+        'optional files (spZbest, photoPlate) exist for all plate-MJDs of a tree or for none; plate numbers 1-99999 (1 to 5 digits), MJD < 65536',
         'fiber=None: every MJD of a plate has the same fibre count; several plates only with mjd=None and distinct plates, '
         'and then only the multiset of rows and the row coherence across arrays is asserted (the property defines no order)',
         'single-element unsigned 64-bit request components (numpy uint64 scalar, length-1 uint64 vector) are outside the domain',
@@ -380,6 +428,11 @@ class C16(Check):
                          'tab_int_wider_than_first_file_zans', 'tab_int_wider_than_first_file_tsobj',
                          'tab_float_wider_than_first_file_plugmap', 'tab_float_wider_than_first_file_zans',
                          'tab_float_wider_than_first_file_tsobj', 'tab_column_order_differs',
+                         # plate numbers that are prefixes of each other; header cards beside COEFF0/COEFF1
+                         'req_mjd_omitted_prefix_plate_later_mjd_same_directory', 'req_mjd_omitted_prefix_plate_later_mjd_tree',
+                         'req_five_digit_plate', 'req_five_digit_plate_mjd_omitted', 'req_five_digit_plate_all_fibres',
+                         'hdr_files_wcs_crpix', 'hdr_files_wcs_inconsistent', 'hdr_files_wcs_sdss',
+                         'hdr_files_wcs_wat', 'hdr_files_other_hdus_repeat_coeff0',
                          # the survey tree changes between the calls of one process
                          'hist_mjd_omitted_after_later_mjd_delivered', 'hist_mjd_omitted_after_latest_mjd_withdrawn',
                          'hist_request_in_new_plate_directory', 'hist_file_replaced_same_shape',
@@ -421,16 +474,16 @@ class C16(Check):
 
     def budget(self, tier):
         q = tier == 'quick'
-        return {'scrambled': 24 if q else 800,
+        return {'scrambled': 20 if q else 800,
                 'latest': 16 if q else 400,
                 'conventions': 16 if q else 400,
-                'override': 16 if q else 320,
+                'override': 14 if q else 320,
                 'path': 12 if q else 200,
                 'sdss': 12 if q else 200,
                 'allfibres': 12 if q else 160,
                 'shared_grid': 12 if q else 160,
                 'reuse': 28 if q else 280,
-                'twin': 8 if q else 100,
+                'twin': 6 if q else 100,
                 'history': 12 if q else 200,
                 'append': 1500 if q else 30000,
                 'append_chain': 300 if q else 6000}
@@ -446,9 +499,10 @@ class C16(Check):
             tree = gen_tree(rng, 'boss')
             reqs = [gen_request(rng, tree, 'vvv', kw=rng.choice(kwsets)) for _ in range(6)]
         elif cls == 'latest':
-            tree = gen_tree(rng, rng.choice(['boss', 'boss', 'sdss']))
+            tree = gen_tree(rng, rng.choice(['boss', 'boss', 'sdss']), confusable=(i % 2 == 1))
             reqs = [gen_request(rng, tree, rng.choice(['vNv', 'vNv', 'vNv', 'sNv', 'vNs', 'sNs', 'l1Nv', 'l1Nl1']),
-                                kw=rng.choice(kwsets)) for _ in range(8)]
+                                kw=rng.choice(kwsets)) for _ in range(6)]
+            reqs += prefix_requests(rng, tree, rng.choice(kwsets))
         elif cls == 'conventions':
             tree = gen_tree(rng, rng.choice(['boss', 'boss', 'sdss']))
             styles = ['svv', 'sNv', 'vvs', 'vNs', 'sss', 'sNs', 'l1v', 'l1Nv', 'l1l1', 'l1Nl1']
@@ -466,13 +520,15 @@ class C16(Check):
         elif cls == 'path':
             allfib = i % 4 == 3
             tree = gen_tree(rng, 'boss' if i % 3 else 'sdss', layout='flat', decoy=(i % 2 == 0), allfib=allfib, small=True,
-                            photoplate=rng.choice(['plate', 'plate', None]))
+                            photoplate=rng.choice(['plate', 'plate', None]), confusable=(i % 4 != 0))
             styles = ['vvv', 'vvv', 'vNv', 'sNv', 'vvs', 'sss'] + (['all_s', 'all_sN'] if allfib else ['vNv'])
             reqs = []
             for k, s in enumerate(styles):
                 kw = ('path',) + rng.choice([(), (), ('run2d', 'run1d'), ('run1d',)])
                 shadow = rng.choice(['decoy', 'unset']) if tree['decoy'] else 'unset'
                 reqs.append(gen_request(rng, tree, s, kw=kw, shadow=shadow))
+            reqs += prefix_requests(rng, tree, ('path',) + rng.choice([(), ('run2d', 'run1d')]),
+                                    shadow='decoy' if tree['decoy'] else 'unset')
         elif cls == 'sdss':
             tree = gen_tree(rng, 'sdss')
             reqs = [gen_request(rng, tree, rng.choice(['vvv', 'vvv', 'vNv', 'svv', 'vvs']), kw=rng.choice(kwsets))
@@ -503,7 +559,7 @@ class C16(Check):
             return self.gen_history(rng, i, kwsets)
         elif cls == 'allfibres':
             kind = 'sdss' if i % 2 == 0 else 'boss'
-            tree = gen_tree(rng, kind, allfib=True, small=True)
+            tree = gen_tree(rng, kind, allfib=True, small=True, five_digit=(i % 4 in (0, 1)))
             styles = ['all_s', 'all_sN', 'all_vN', rng.choice(['all_s', 'all_sN', 'all_vN'])]
             reqs = [gen_request(rng, tree, s, kw=rng.choice([(), (), ('run2d',), ('run2d', 'run1d'),
                                                              ('topdir', 'run2d', 'run1d')])) for s in styles]
@@ -552,7 +608,7 @@ class C16(Check):
             rows = {(f[0], f[1]): f for f in work}
             reqs.append({'style': 'vNv', 'kw': list(kw()), 'shadow': 'good', 'plate': allp, 'mjd': None,
                          'fiber': [_pick_fibre(rng, rows[(p, lat[p])][2]) for p in allp],
-                         'pform': vec_form(rng, True, 0, len(allp)), 'mform': 'int', 'fform': vec_form(rng, True, 0, len(allp))})
+                         'pform': vec_form(rng, True, max(allp), len(allp)), 'mform': 'int', 'fform': vec_form(rng, True, 0, len(allp))})
             for p in touched[:2]:
                 mine = [f for f in work if f[0] == p]
                 if mine:
@@ -602,7 +658,7 @@ class C16(Check):
                     ops.append(['remove', p, lat[p]])
                     work[:] = [f for f in work if (f[0], f[1]) != (p, lat[p])]
                 elif kind == 'newplate':
-                    p = rng.choice([x for x in (max(lat) + 1, min(lat) - 1, rng.randint(1, 9999)) if 1 <= x <= 9999 and x not in lat]
+                    p = rng.choice([x for x in (max(lat) + 1, min(lat) - 1, rng.randint(1, 9999)) if 1 <= x <= 99999 and x not in lat]
                                    or [None])
                     if p is None:
                         continue
@@ -627,14 +683,16 @@ class C16(Check):
         tree = gen_tree(rng, 'sdss' if i % 5 == 4 else 'boss', small=rng.random() < 0.5)
         files = tree['plates']
         maxm = max(f[1] for f in files)
+        maxp = max(f[0] for f in files)
 
         def aform(maxval=0):
-            return rng.choice(['array:' + d for d in VEC_DTYPES if not (d == 'i2' and maxval > 32767)] + ['list'])
+            return rng.choice(['array:' + d for d in VEC_DTYPES if not (d == 'i2' and maxval > 32767)
+                               and not (d == 'u2' and maxval > 65535)] + ['list'])
         reqs = []
         if variant == 0:
             # the same request, same objects, three times (other keywords each time)
             base = gen_request(rng, tree, rng.choice(['vvv', 'vvv', 'vNv']), per_file=rng.choice([1, 2]), min_n=2)
-            base['fform'], base['pform'] = fform, aform()
+            base['fform'], base['pform'] = fform, aform(maxp)
             base['mform'] = aform(maxm)
             for k in range(3):
                 r = dict(base)
@@ -654,12 +712,13 @@ class C16(Check):
                 nomjd = f[1] == lat[f[0]] and rng.random() < 0.4
                 reqs.append({'style': 'sNv' if nomjd else 'svv', 'kw': list(rng.choice(kwsets)), 'shadow': 'good',
                              'plate': f[0], 'mjd': None if nomjd else f[1], 'fiber': fib,
-                             'pform': scalar_form(rng), 'mform': scalar_form(rng, maxm), 'fform': fform,
+                             'pform': scalar_form(rng, maxp), 'mform': scalar_form(rng, maxm), 'fform': fform,
                              'share': {'fiber': 'f'}})
         else:
             # plate and MJD vectors shared, another fibre vector each time; the fibre vectors are reused crosswise
             base = gen_request(rng, tree, 'vvv', per_file=rng.choice([1, 2]), min_n=2)
-            base['pform'], base['mform'] = fform, (fform if fform != 'array:i2' else 'array:i4')
+            base['pform'] = fform if not (maxp > 32767 and fform in ('array:i2', 'array:u2')) else 'array:i4'
+            base['mform'] = fform if fform != 'array:i2' else 'array:i4'
             rows = {(f[0], f[1]): f[2] for f in files}
             fibs = []
             for k in range(2):
@@ -714,8 +773,9 @@ class C16(Check):
             common = dict(run2d=t['run2d'], run1d=t['run1d'], layout=t['layout'], zbest=t['zbest'],
                           photoplate=t['photoplate'], platelist=t['platelist'])
             tv = t.get('tabvar')
+            hv = t.get('hdrvar')
             desc = T.write_tree(os.path.join(root, 'main'), [tuple(p) for p in t['plates']], file_base=0,
-                                table_variation=tv, **common)
+                                table_variation=tv, header_variation=hv, **common)
             decoy = None
             if t.get('decoy'):
                 c2 = dict(common)
@@ -725,7 +785,8 @@ class C16(Check):
                     c2['run2d'] = t['twin_run2d']
                     droot = os.path.join(root, 'main')
                 decoy = T.write_tree(droot, [tuple(p) for p in t['decoy']],
-                                     file_base=DECOY_BASE, table_variation=None if tv is None else tv + 1, **c2)
+                                     file_base=DECOY_BASE, table_variation=None if tv is None else tv + 1,
+                                     header_variation=None if hv is None else hv + 1, **c2)
             shared = {}        # request components materialised once and handed to several calls (key -> object)
             if 'stages' not in case:
                 for qi, req in enumerate(case['requests']):
@@ -913,6 +974,19 @@ class C16(Check):
                 nm[f[0]] = nm.get(f[0], 0) + 1
             if any(nm[p] > 1 for p in byplate):
                 out.count('req_latest_multi_mjd')
+        if req['mjd'] is None:
+            # another plate whose file / directory name starts with this plate's, holding a LATER MJD
+            lat_all = _latest(t['plates'])
+            for p in byplate:
+                pre = '%04d' % p
+                if any(q != p and ('%04d' % q).startswith(pre) and lat_all[q] > lat_all[p] for q in lat_all):
+                    out.count('req_mjd_omitted_prefix_plate_later_mjd' + ('_same_directory' if 'path' in req['kw'] else '_tree'))
+        if any(p > 9999 for p in byplate):
+            out.count('req_five_digit_plate')
+            if req['mjd'] is None:
+                out.count('req_five_digit_plate_mjd_omitted')
+            if req['fiber'] is None:
+                out.count('req_five_digit_plate_all_fibres')
         # files of one call that share COEFF0/COEFF1 but not the pixel count, in plate-MJD (= read) order
         meta = {(f[0] << 16) + f[1]: f for f in t['plates']}
         rows_of = {}
@@ -1030,6 +1104,13 @@ class C16(Check):
             okout = okin | (ll == 0)
             bad = np.where(inside, ~okin, ~okout)
             out.count('loglam_rows', n)
+            # what else the headers of the requested files say about the wavelength axis (expectation: COEFF0/COEFF1, HDU 0)
+            for rc in {rc['index']: rc for rc in recs}.values():
+                hd = rc.get('header')
+                if hd:
+                    out.count('hdr_files_wcs_' + hd['style'])
+                    if hd['other_hdus']:
+                        out.count('hdr_files_other_hdus_repeat_coeff0')
             if bad.any():
                 i, p = [int(x[0]) for x in np.nonzero(bad)]
                 out.fail('loglam', 'loglam[%d, %d] = %r, COEFF0 + COEFF1*pixel = %r (plate %d mjd %d, %d pixels)'
